@@ -688,7 +688,22 @@ func ruleTypeSwitch(c *RC) *RuleResult {
 							stampViaMaker = true
 						}
 					}
-					if u, ok := x.Args[pm.body].(*ast.UnaryExpr); ok {
+					bodyArg := ast.Unparen(x.Args[pm.body])
+					// (the body may be built into a local first)
+					if id, ok := bodyArg.(*ast.Ident); ok {
+						obj := gi.Uses[id]
+						ast.Inspect(fn.Decl.Body, func(m ast.Node) bool {
+							if as, ok := m.(*ast.AssignStmt); ok && len(as.Lhs) == len(as.Rhs) {
+								for i, lhs := range as.Lhs {
+									if lid, ok := lhs.(*ast.Ident); ok && (gi.Defs[lid] == obj || gi.Uses[lid] == obj) && obj != nil {
+										bodyArg = ast.Unparen(as.Rhs[i])
+									}
+								}
+							}
+							return true
+						})
+					}
+					if u, ok := bodyArg.(*ast.UnaryExpr); ok {
 						if cl, ok := u.X.(*ast.CompositeLit); ok {
 							lit = cl
 							if t, ok := cl.Type.(*ast.Ident); ok {
@@ -1124,6 +1139,10 @@ func (c *RC) payloadMakers() map[*FuncInfo]payloadMaker {
 							pm.kind = i
 						case "Serializable":
 							pm.body = i
+						}
+						// the sender's index given as a parameter and written into the envelope's index field
+						if k.Name == "validatorIndex" {
+							pm.vidx = i
 						}
 					}
 				case *ast.CallExpr:
